@@ -18,6 +18,9 @@ var AverageRequired = AveragePeriod / 2 // If we have at least half the rates, w
 //
 // Also note that if asked twice about the same height, we cache the response.
 func (d *Pegnetd) GetPegNetRateAverages(ctx context.Context, height uint32) (Avg interface{}) {
+	// The rich list API methods call this concurrently with the sync routine
+	d.averagesMu.Lock()
+	defer d.averagesMu.Unlock()
 
 	if d.LastAveragesHeight == height { //                      If a cache hit is detected, return the cache value
 		return d.LastAverages
